@@ -107,6 +107,38 @@ fn presentation_constants(repo: &str, out: &mut Out) {
     }
 }
 
+fn coq_str_list3(rows: &[(String, String, String)]) -> String {
+    let r: Vec<String> = rows.iter().map(|(a, b, c)| format!("(\"{a}\"%string, \"{}\"%string, \"{}\"%string)", b.replace('"', "'"), c.replace('"', "'"))).collect();
+    format!("[{}]", r.join(";\n   "))
+}
+
+/// serialised session state: field lists and serde attributes of the state structs
+fn state_fields(repo: &str, out: &mut Out) {
+    let dev = parse_file(&format!("{repo}/src/presentation/device.rs"));
+    let rdr = parse_file(&format!("{repo}/src/presentation/reader.rs"));
+    let mut body = String::new();
+    let mut emit_struct = |out: &mut Out, file: &syn::File, name: &str, def: &str, item: &str| match struct_fields(file, name) {
+        Some((c, f)) => {
+            writeln!(body, "Definition {def}_container_attrs : String.string := \"{}\"%string.\nDefinition {def} : list (String.string * String.string * String.string) :=\n  {}.\n", c.replace('"', "'"), coq_str_list3(&f)).unwrap();
+            out.ok(item, &format!("{} fields", f.len()));
+        }
+        None => out.fail(item, &format!("struct {name} with named fields not found")),
+    };
+    emit_struct(out, &dev, "SessionManagerInit", "gen_init_fields", "state_fields_init");
+    emit_struct(out, &dev, "SessionManagerEngaged", "gen_engaged_fields", "state_fields_engaged");
+    emit_struct(out, &dev, "SessionManager", "gen_device_sm_fields", "state_fields_device");
+    emit_struct(out, &dev, "PreparedDeviceResponse", "gen_prepared_fields", "state_fields_prepared");
+    emit_struct(out, &rdr, "SessionManager", "gen_reader_sm_fields", "state_fields_reader");
+    match enum_variants(&dev, "State") {
+        Some((c, v)) => {
+            writeln!(body, "Definition gen_state_container_attrs : String.string := \"{}\"%string.\nDefinition gen_state_variants : list (String.string * String.string * String.string) :=\n  {}.\n", c.replace('"', "'"), coq_str_list3(&v)).unwrap();
+            out.ok("state_variants", &format!("{} variants", v.len()));
+        }
+        None => out.fail("state_variants", "enum State not found in device.rs"),
+    }
+    out.files.insert("StateFields".into(), body);
+}
+
 fn main() {
     let args: Vec<String> = std::env::args().collect();
     let repo = args.get(1).cloned().unwrap_or_else(|| "/repo".into());
@@ -114,6 +146,7 @@ fn main() {
     let mut out = Out { constants: String::new(), files: BTreeMap::new(), obligations: vec![], meta: BTreeMap::new() };
     session_constants(&repo, &mut out);
     presentation_constants(&repo, &mut out);
+    state_fields(&repo, &mut out);
 
     let header = "(* GENERATED by /verif/translator from /repo's current source on every run. Do not edit. *)\nFrom Isomdl Require Import Lib.Bytes.\nOpen Scope N_scope.\n\n";
     write_if_changed(&format!("{outdir}/Constants.v"), &format!("{header}{}", out.constants));
